@@ -26,8 +26,10 @@ Build(s, cuts, solo, outer, lead) ==
   IN IF outer THEN <<Group(withlead)>> ELSE withlead
 MCInit ==
   \E s \in Lists : \E cuts \in SUBSET (1..(Len(s) - 1)) : \E solo \in SUBSET (1..(Cardinality(cuts) + 1)) :
-    \E outer \in BOOLEAN, lead \in BOOLEAN, side \in {"client", "handler"}, shape \in {"unary", "stream"} :
-      InitWith([opts |-> Build(s, cuts, solo, outer, lead), side |-> side, shape |-> shape])
+    \* flip: every group is built with the side-agnostic WithOptions (TRUE), or WithClientOptions / WithHandlerOptions
+    \* at even nesting depth and WithOptions at odd depth (FALSE)
+    \E outer \in BOOLEAN, lead \in BOOLEAN, side \in {"client", "handler"}, shape \in {"unary", "stream"}, flip \in BOOLEAN :
+      InitWith([opts |-> Build(s, cuts, solo, outer, lead), side |-> side, shape |-> shape, flip |-> flip])
 MCSpec == MCInit /\ [][Next]_vars
 
 (* C19: the recover interceptor at every position of a chain of up to three, every panic value and point *)
